@@ -158,7 +158,9 @@ Definition description (files : list file) : string := to_one_line (package_doc 
 (* ---------------------------------------------------------------- setImports, first loop *)
 Definition visit_spec (acc : list (string * string) * list string) (s : ispec) :=
   let '(names, roots) := acc in
-  if String.eqb (sp_alias s) "" then (names, roots ++ [sp_path s])
+  if String.eqb (sp_alias s) "" then
+    (* the same package imported bare by several specs is one import (4a102aa): appended if not there yet *)
+    (names, if existsb (String.eqb (sp_path s)) roots then roots else roots ++ [sp_path s])
   else (sadd (sp_path s, sp_alias s) names, roots).
 
 Definition visit_file (acc : list (string * string) * list string) (f : file) :=
